@@ -134,8 +134,10 @@ def check_C20(tier):
     bins = build_repo_bins(["varlink-cli"])
     thorough = tier == "thorough"
     consts = {"BugStopAtFirst": False, "BugExitZeroOnError": False, "BugSplitFirstSlash": False, "MaxK": 6 if thorough else 3, "Emit": True}
-    cfg = write_cfg(os.path.join(res.wd, "MC_Cli.cfg"), constants=consts, invariants=["InvExit", "InvOrder", "InvAll", "EmitCase"])
+    cfg = write_cfg(os.path.join(res.wd, "MC_Cli.cfg"), constants=consts, invariants=["InvExit", "InvOrder", "InvAll", "FormsOk", "EmitCase", "EmitForms"])
     r = run_tlc("MC_Cli", cfg, res.wd, workers=2, tag="cli")
+    forms = [c for c in r.replay if "forms" in c]
+    r.replay = [c for c in r.replay if "script" in c]
     res.add_tlc(r)
     if r.violation:
         res.tlc_violation(r, "MC_Cli")
@@ -143,6 +145,12 @@ def check_C20(tier):
     res.add_failures(fails, "cli-replay")
     res.traces += summ["executions"]
     res.evaluations += summ["executions"]
+    # beyond the property's statement: info / help / call x direct / resolver / --activate / --bridge x known / unknown interface
+    fails, summ, _ = run_vh(vh, ["cliforms"], forms, timeout=900, env={"VERIF_VARLINK_BIN": os.path.join(bins, "varlink")})
+    res.add_failures(fails, "cli-forms")
+    res.traces += summ["executions"]
+    res.evaluations += summ["executions"]
+    res.extra["command_form_cases"] = summ["executions"]
     res.nontrivial = {json.dumps([c["script"], c["more"]]) for c in r.replay if len(c["script"]) >= 1}
     for c in r.replay[5::17][:4]:
         res.sample(c)
